@@ -168,6 +168,44 @@ def run_one(driver, case):
     return res
 
 
+_cov = {'seen': set(), 'dumped': 0, 'on': False}
+
+
+def _cov_start():
+    """VERIF_LINECOV=<dir>: record which lines of the library under test the
+    check executes (sys.monitoring, each location reported once).  A tool
+    for finding gaps in the alphabets (tools/linecov.py); no verdict
+    depends on it."""
+    d = os.environ.get('VERIF_LINECOV')
+    if not d or _cov['on']:
+        return
+    src = os.path.realpath(os.environ.get('VERIF_SRC', '/repo/src'))
+    mon = sys.monitoring
+    mon.use_tool_id(4, 'dtmc-linecov')
+
+    def on_line(code, line):
+        fn = code.co_filename
+        if fn.startswith(src):
+            _cov['seen'].add((fn[len(src) + 1:], line))
+        return mon.DISABLE
+
+    mon.register_callback(4, mon.events.LINE, on_line)
+    mon.set_events(4, mon.events.LINE)
+    _cov['on'] = True
+
+
+def _cov_dump():
+    if not _cov['on'] or len(_cov['seen']) == _cov['dumped']:
+        return
+    d = os.environ['VERIF_LINECOV']
+    os.makedirs(d, exist_ok=True)
+    path = os.path.join(d, 'lines.%d.json' % os.getpid())
+    with open(path + '.tmp', 'w') as f:
+        json.dump(sorted(_cov['seen']), f)
+    os.replace(path + '.tmp', path)
+    _cov['dumped'] = len(_cov['seen'])
+
+
 def _worker(args):
     pid, tier, shard, nshards, seed = args
     _tier[0] = tier
@@ -220,6 +258,7 @@ def _worker(args):
                     agg['violations'].append(v)
     except Exception:
         agg['fault'] = traceback.format_exc()
+    _cov_dump()
     return agg
 
 
@@ -273,6 +312,7 @@ def _dyn_case(args):
                 agg['violations'].append(v)
     except Exception:
         agg['fault'] = traceback.format_exc()
+    _cov_dump()
     return agg
 
 
@@ -347,6 +387,7 @@ def write_evidence(pid, tier, seed, level, coverage, assumptions, wall,
 def check(pid, tier='quick', jobs=None, seed=0):
     t0 = time.time()
     src = setup_path()
+    _cov_start()
     driver = load_driver(pid)
     import DocumentTemplate
     real = os.path.realpath(os.path.dirname(DocumentTemplate.__file__))
@@ -373,6 +414,7 @@ def check(pid, tier='quick', jobs=None, seed=0):
     else:
         with ctx.Pool(jobs) as pool:
             aggs = pool.map(_worker, args, chunksize=1)
+    _cov_dump()
     agg = merge(aggs)
     if agg['fault']:
         print('HARNESS-FAULT in worker:\n' + agg['fault'])
